@@ -21,7 +21,7 @@ from ..setorder import SetOrder
 SETORDER_SUPPRESS = {
     (
         "cdd.shared.parse.utils.parser_utils._join_non_none",
-        "primacy.update",
+        "primacy",  # any insertion into the ParamVal mapping handed in as `primacy` (update / item assignment)
     ): "key order inside one ParamVal dict ({typ, doc, default, ...}) is never observed: every emitter "
     "reads ParamVal entries by key",
 }
@@ -219,7 +219,7 @@ def _mutdefault(ctx):
                     "through it found)".format(f.qual, arg.arg)
                 )
     ctx.count("mutable_default_arguments", n_defaults)
-    ctx.floor("mutable default arguments", n_defaults, 1)
+    ctx.floor("mutable default arguments", n_defaults, 0)
 
 
 def _modstate(ctx):
@@ -630,7 +630,7 @@ def _crossmod(ctx):
                     )
             ctx.ob("C10.crossmod", m, "{} <- {}".format(target, short(pairs_node, 60)), ok, msg, line=s.lineno)
     ctx.count("cross_module_import_time_writes", n)
-    ctx.floor("cross-module import-time table writes", n, 1)
+    ctx.floor("cross-module import-time table writes", n, 0)
 
 
 def _nondet(ctx):
